@@ -278,8 +278,9 @@ var vC10MediaStates = []string{"session", "room", "room", "roomr", "internal", "
 
 // vC10GenMedia: cases in the world with the real Janus client.  Scripted
 // opening (the bystander publishes when the world is made; the sender asks for
-// that stream, so that it has a subscriber the later messages can reach), then a
-// random conversation of media messages.
+// that stream, so that it has a subscriber the later messages can reach, and in
+// half of the cases publishes itself), then a random conversation of media
+// messages.
 func vC10GenMedia(e *vEnv, r *vRand, ncases int) []vCase {
 	var cases []vCase
 	perState := e.scale(8, 12)
@@ -293,6 +294,14 @@ func vC10GenMedia(e *vEnv, r *vRand, ncases int) []vCase {
 				opening := jO("type", "message", "message", jO("recipient", jO("type", "session", "sessionid", phBy),
 					"data", jO("type", "requestoffer", "roomType", "video")))
 				if op, ok := vC10MsgOp(opening.String(), 0, false); ok {
+					ops = append(ops, op)
+				}
+			}
+			if rr.chance(1, 2) {
+				// the sender publishes too: "sendoffer" then reaches a subscriber of the bystander
+				own := jO("type", "message", "message", jO("recipient", jO("type", "session", "sessionid", phSelf),
+					"data", jO("type", "offer", "roomType", "video", "payload", jO("type", "offer", "sdp", MockSdpOfferAudioAndVideo))))
+				if op, ok := vC10MsgOp(own.String(), 0, false); ok {
 					ops = append(ops, op)
 				}
 			}
